@@ -271,6 +271,10 @@ func execProg(cc contract.CallContext, r *txRec, pg *prog) error {
 // Handler doubles for two dedicated contract addresses, handed out by a wrapping ContractManager:
 //   "s"  a SyncContractHandler that runs the program like the system SCORE does (the frames of
 //        the system SCOREs are asynchronous CallHandler frames; this one is synchronous);
+//   "e"  an AsyncContractHandler that behaves like a contract in an execution engine: it answers
+//        later (callContext.OnResult from another goroutine), asks for inter-calls through
+//        callContext.OnCall and receives their outcome through SendResult, and accounts its
+//        own steps (callContext.waitResult request/result messages, handleResult forwarding);
 //   "z"  an AsyncContractHandler that never answers, so that callContext.waitResult gives up
 //        when the chain's TransactionTimeout expires.
 
@@ -310,6 +314,8 @@ func (m *verifCM) double(from, to module.Address, value *big.Int, id string, int
 		return &syncHandler{CommonHandler: ch, id: id}
 	case "z":
 		return &hangHandler{CommonHandler: ch}
+	case "e":
+		return &eeHandler{CommonHandler: ch, id: id, env: m.env, results: make(chan childResult, 1), done: make(chan struct{})}
 	}
 	return nil
 }
@@ -384,3 +390,176 @@ func (h *hangHandler) SendResult(status error, steps *big.Int, result *codec.Typ
 }
 func (h *hangHandler) Dispose()              {}
 func (h *hangHandler) EEType() state.EEType { return state.NullEE }
+
+// eeHandler: the execution-engine style double. The program runs in its own goroutine, as the
+// proxy of an execution engine would drive it; everything it does goes through the real
+// CallContext (state, events, OnCall, OnResult).
+type childResult struct {
+	status error
+	steps  *big.Int
+}
+
+type eeHandler struct {
+	*contract.CommonHandler
+	eeproxy.CallContext // never used
+	id      string
+	env     *env
+	results chan childResult
+	done    chan struct{}
+	once    sync.Once
+}
+
+func (h *eeHandler) Logger() log.Logger   { return h.CommonHandler.Logger() }
+func (h *eeHandler) EEType() state.EEType { return state.NullEE }
+func (h *eeHandler) Dispose()             { h.once.Do(func() { close(h.done) }) }
+
+// SendResult: callContext.handleResult forwards the outcome of a child frame to the asynchronous parent.
+func (h *eeHandler) SendResult(status error, steps *big.Int, result *codec.TypedObj) error {
+	select {
+	case h.results <- childResult{status, steps}:
+	case <-h.done:
+	}
+	return nil
+}
+
+func (h *eeHandler) ExecuteAsync(cc contract.CallContext) error {
+	r := recFor(cc.TransactionID())
+	if r == nil {
+		return scoreresult.UnknownFailureError.New("verif: unregistered transaction")
+	}
+	pg := r.lookup(h.id)
+	if pg == nil {
+		r.fail("unknown program %q", h.id)
+		return scoreresult.UnknownFailureError.New("verif: unknown program")
+	}
+	// the call step is charged by the handler before the engine is invoked (CallHandler.DoExecuteAsync)
+	err := cc.ApplyCallSteps()
+	r.dec(err == nil)
+	if err != nil {
+		return err
+	}
+	avail := cc.StepAvailable()
+	go func() {
+		status, used := h.run(cc, r, pg, avail)
+		select {
+		case <-h.done: // the frame was cleaned up (timeout): nobody waits for the answer
+		default:
+			cc.OnResult(status, 0, used, nil, nil)
+		}
+	}()
+	return nil
+}
+
+// run performs the program; it returns the status and the steps the "engine" used (own steps plus
+// the steps of the inter-calls, as an execution engine reports them).
+func (h *eeHandler) run(cc contract.CallContext, r *txRec, pg *prog, avail *big.Int) (error, *big.Int) {
+	e := h.env
+	self := e.addr[pg.self]
+	used := new(big.Int)
+	charge := func(n *big.Int) bool {
+		used.Add(used, n)
+		if used.Cmp(avail) > 0 {
+			used.Set(avail)
+			return false
+		}
+		return true
+	}
+	call := func(handler contract.ContractHandler) (error, bool) {
+		cc.OnCall(handler, new(big.Int).Sub(avail, used))
+		select {
+		case res := <-h.results:
+			charge(res.steps)
+			return res.status, true
+		case <-h.done:
+			return scoreresult.ErrTimeout, false
+		}
+	}
+	for _, o := range pg.ops {
+		select {
+		case <-h.done: // the frame was cleaned up (transaction timeout): stop touching the world
+			return scoreresult.ErrTimeout, used
+		default:
+		}
+		switch o.O {
+		case "set":
+			as := cc.GetAccountState(self.ID())
+			var err error
+			if o.N == 0 {
+				_, err = as.DeleteValue([]byte(o.A))
+			} else {
+				_, err = as.SetValue([]byte(o.A), storeVal(int(o.N)))
+			}
+			if err != nil {
+				r.fail("set: %v", err)
+				return err, used
+			}
+		case "ev":
+			cc.OnEvent(self, [][]byte{[]byte("Verif(int)"), {byte(len(pg.ops))}}, nil)
+		case "msg":
+			cc.OnBTPMessage(e.btpNID, []byte("verif-"+pg.self))
+		case "revert":
+			return scoreresult.ErrReverted, used
+		case "burn":
+			ok := charge(big.NewInt(o.N))
+			r.dec(ok)
+			if !ok {
+				return scoreresult.ErrOutOfStep, used
+			}
+		case "take":
+			origin := cc.TransactionInfo().From
+			aso := cc.GetAccountState(origin.ID())
+			n := big.NewInt(o.N)
+			if aso.GetBalance().Cmp(n) < 0 {
+				return scoreresult.ErrOutOfBalance, used
+			}
+			aso.SetBalance(new(big.Int).Sub(aso.GetBalance(), n))
+			ass := cc.GetAccountState(self.ID())
+			ass.SetBalance(new(big.Int).Add(ass.GetBalance(), n))
+		case "xfer":
+			hd, err := cc.ContractManager().GetCallHandler(self, e.addr[o.A], big.NewInt(o.N), contract.CTypeTransfer, nil)
+			if err != nil {
+				r.fail("xfer handler: %v", err)
+				return err, used
+			}
+			status, alive := call(hd)
+			if !alive {
+				return status, used
+			}
+			r.dec(!isOutOfStep(status))
+			if status != nil && !o.C {
+				return status, used
+			}
+		case "call":
+			to, ok := e.addr[o.A]
+			if !ok {
+				r.fail("call: unknown account %q", o.A)
+				return scoreresult.UnknownFailureError.New("verif: unknown account"), used
+			}
+			id := r.addNested(&prog{self: o.A, ops: o.Sub})
+			data, err := common.EncodeAny(map[string]interface{}{
+				"method": "run",
+				"params": map[string]interface{}{"p": id},
+			})
+			if err != nil {
+				r.fail("call data: %v", err)
+				return err, used
+			}
+			hd, err := cc.ContractManager().GetCallHandler(self, to, big.NewInt(o.N), contract.CTypeCall, data)
+			if err != nil {
+				r.fail("call handler: %v", err)
+				return err, used
+			}
+			status, alive := call(hd)
+			if !alive || isTimeout(status) {
+				return status, used
+			}
+			if status != nil && !o.C {
+				return status, used
+			}
+		default:
+			r.fail("unknown op %q", o.O)
+			return scoreresult.UnknownFailureError.New("verif: unknown op"), used
+		}
+	}
+	return nil, used
+}
